@@ -239,7 +239,7 @@ def gen_doc(rnd, depth=0):
             elif r < 0.82:
                 out.append("`" + w + "`")
             elif r < 0.87:
-                out.append("![" + w + "](i.png)")
+                out.append("![" + rnd.choice([w, "a `c` b", "e\\*s", "x &amp; y", "*em* t"]) + "](i.png)")
             elif r < 0.92:
                 out.append("~~" + w + "~~")
             elif r < 0.96:
